@@ -2,6 +2,10 @@
 //!
 //!   johnson_circuits <family> [am verts arcs]   =>  [[circuit] ...] | panic
 //!
+//!   johnson_repeat   <family> <k|clone> [am verts arcs] =>  [[circuit] ...] x k | panic
+//!
+//! `johnson_repeat` calls `circuits()` `k` times on ONE `Johnson75` value (`clone`: call once,
+//! clone the value, call the clone) and reports every returned vector.
 //! `<family>` is a label of the generator family (ignored by `eval`, histogrammed by the driver).
 //! Only contiguous vertex sets `0..n` are generated (the property's scope).
 #![allow(clippy::all)]
@@ -23,6 +27,31 @@ pub fn eval(op: &str, args: &[V]) -> Option<Vec<V>> {
             let d = desc.build_am();
             let cs = Johnson75::new(&d).circuits();
             Some(vec![V::L(cs.into_iter().map(V::us).collect())])
+        }
+        "johnson_repeat" => {
+            let [_fam, mode, desc] = args else { return None };
+            let desc = Desc::parse(desc)?;
+            if desc.repr != "am" {
+                return None;
+            }
+            let d = desc.build_am();
+            let show = |cs: Vec<Vec<usize>>| V::L(cs.into_iter().map(V::us).collect());
+            let mut j = Johnson75::new(&d);
+            match mode {
+                V::A(m) if m == "clone" => {
+                    let first = j.circuits();
+                    let mut j2 = j.clone();
+                    let second = j2.circuits();
+                    Some(vec![show(first), show(second)])
+                }
+                _ => {
+                    let k = mode.as_usize()?;
+                    if k == 0 || k > 8 {
+                        return None;
+                    }
+                    Some((0..k).map(|_| show(j.circuits())).collect())
+                }
+            }
         }
         _ => None,
     }
@@ -61,6 +90,82 @@ fn count_circuits(n: usize, arcs: &[(usize, usize)], cap: usize) -> usize {
         }
     }
     cnt
+}
+
+/// Work of the naive enumeration (number of path extensions tried), capped.
+fn naive_work(n: usize, arcs: &[(usize, usize)], cap: usize) -> usize {
+    let mut out = vec![Vec::new(); n];
+    for &(u, v) in arcs {
+        out[u].push(v);
+    }
+    fn go(out: &[Vec<usize>], s: usize, v: usize, on: &mut Vec<bool>, cnt: &mut usize, cap: usize) {
+        for &w in &out[v] {
+            *cnt += 1;
+            if *cnt > cap {
+                return;
+            }
+            if w > s && !on[w] {
+                on[w] = true;
+                go(out, s, w, on, cnt, cap);
+                on[w] = false;
+            }
+        }
+    }
+    let mut cnt = 0;
+    for s in 0..n {
+        let mut on = vec![false; n];
+        on[s] = true;
+        go(&out, s, s, &mut on, &mut cnt, cap);
+        if cnt > cap {
+            break;
+        }
+    }
+    cnt
+}
+
+/// Larger sparse digraphs (order 20..40) whose naive enumeration stays small: a few strongly
+/// connected blocks of 4..8 vertices (rich in circuits, dead ends and B-list traffic) chained by
+/// forward arcs, plus isolated vertices and tails (trivial components: roots that stay blocked).
+fn big_sparse(rng: &mut Rng) -> (usize, Vec<(usize, usize)>) {
+    let n = 20 + rng.below(21);
+    let mut lab: Vec<usize> = (0..n).collect();
+    if rng.chance(1, 2) {
+        rng.shuffle(&mut lab);
+    }
+    let mut arcs: Vec<(usize, usize)> = Vec::new();
+    let mut start = 0;
+    while start < n {
+        let len = (1 + rng.below(8)).min(n - start);
+        if len >= 2 {
+            for i in 0..len {
+                arcs.push((lab[start + i], lab[start + (i + 1) % len]));
+            }
+            for _ in 0..(len + rng.below(2 * len)) {
+                arcs.push((lab[start + rng.below(len)], lab[start + rng.below(len)]));
+            }
+        }
+        if start + len < n {
+            for _ in 0..(1 + rng.below(3)) {
+                arcs.push((lab[start + rng.below(len)], lab[start + len + rng.below(n - start - len)]));
+            }
+        }
+        start += len;
+    }
+    let mut arcs = dedup(arcs);
+    while naive_work(n, &arcs, 60_000) > 60_000 || count_circuits(n, &arcs, 2000) > 2000 {
+        let drop = (arcs.len() / 8).max(1);
+        for _ in 0..drop {
+            let i = rng.below(arcs.len());
+            let _ = arcs.swap_remove(i);
+        }
+    }
+    rng.shuffle(&mut arcs);
+    (n, arcs)
+}
+
+fn repeat_line(fam: &str, mode: &str, n: usize, arcs: &[(usize, usize)]) -> String {
+    let d = Desc { repr: "am".to_string(), verts: (0..n).collect(), arcs: arcs.to_vec(), weights: vec![1; arcs.len()] };
+    format!("johnson_repeat {fam} {mode} {}", d.to_v())
 }
 
 /// Drop random arcs until the digraph has at most `cap` circuits.
@@ -258,6 +363,51 @@ fn special(rng: &mut Rng, n: usize) -> (&'static str, Vec<(usize, usize)>) {
 
 pub fn gen(rng: &mut Rng, thorough: bool, emit: &mut dyn FnMut(String)) {
     let cap = if thorough { 3000 } else { 1200 };
+    let modes = ["2", "3", "clone"];
+
+    // (0) state carried between calls: `circuits()` two / three times on the same value (and on a
+    //     clone taken after a call).  Every digraph with a trivial component leaves a blocked root.
+    {
+        // exhaustive: all digraphs on <= 3 vertices, twice
+        for n in 1..=3usize {
+            let pairs: Vec<(usize, usize)> =
+                (0..n).flat_map(|u| (0..n).filter(move |&v| v != u).map(move |v| (u, v))).collect();
+            for code in 0u32..(1u32 << pairs.len()) {
+                let arcs: Vec<(usize, usize)> =
+                    pairs.iter().enumerate().filter(|(i, _)| code >> i & 1 == 1).map(|(_, &p)| p).collect();
+                emit(repeat_line(&format!("all{n}"), "2", n, &arcs));
+            }
+        }
+        let n_rep = if crate::stress() { 1500 } else if thorough { 2500 } else { 450 };
+        for i in 0..n_rep {
+            let n = if rng.chance(2, 3) { 3 + rng.below(6) } else { 9 + rng.below(6) };
+            let (name, mut arcs) = if rng.chance(1, 2) { special(rng, n) } else { graphs::gen_arcs(rng, n) };
+            cap_circuits(rng, n, &mut arcs, cap / 3);
+            emit(repeat_line(name, modes[i % 3], n, &arcs));
+        }
+    }
+
+    // stress stream: larger sparse digraphs, single and repeated calls; nothing else in that mode
+    if crate::stress() {
+        for i in 0..400 {
+            let (n, arcs) = big_sparse(rng);
+            if i % 2 == 0 {
+                emit(line("big-sparse", n, &arcs));
+            } else {
+                emit(repeat_line("big-sparse", modes[i % 3], n, &arcs));
+            }
+        }
+        return;
+    }
+    // a few of the larger sparse digraphs in every tier
+    for i in 0..(if thorough { 400 } else { 150 }) {
+        let (n, arcs) = big_sparse(rng);
+        if i % 3 == 2 {
+            emit(repeat_line("big-sparse", "2", n, &arcs));
+        } else {
+            emit(line("big-sparse", n, &arcs));
+        }
+    }
 
     // (1) exhaustive small scopes
     let exhaustive_n: &[usize] = if thorough { &[1, 2, 3, 4] } else { &[1, 2, 3] };
